@@ -242,7 +242,94 @@ def lemma_distinct():
 
 # ------------------------------------------------------------------ replay
 
+def server_scenario(ctx):
+    """the partitions Server computes from its options: every bus / buffer index handed out to client id c lies inside
+    the server's range for that resource, ranges of different client ids are disjoint, and a client gets its whole share"""
+    from sc3.synth import server as srv, bus as bus_, buffer as buf_
+    cfg = dict(audio=[8, 12, 13][ctx.choose('audio', 3)], io=[(2, 2), (0, 2), (1, 1)][ctx.choose('io', 3)],
+               logins=1 + ctx.choose('logins', 3), res_a=ctx.choose('res_a', 2), control=[6, 8][ctx.choose('control', 2)],
+               res_c=ctx.choose('res_c', 2), buffers=[6, 8][ctx.choose('buffers', 2)], res_b=ctx.choose('res_b', 2))
+    fp_ = sum(cfg['io'])
+    if min((cfg['audio'] - fp_) // cfg['logins'] - cfg['res_a'], cfg['control'] // cfg['logins'] - cfg['res_c'],
+           cfg['buffers'] // cfg['logins'] - cfg['res_b']) <= 0:
+        raise PathAbort('degenerate options: a client share not larger than its reserved count')
+    msg = server_partitions(cfg)
+    if msg:
+        raise Violation(msg, None, {'key': 'c16:server:partition', 'replay': {'kind': 'server', 'mode': 'nrt', 'cfg': cfg}})
+    ctx.obligations += 1
+    ctx.discharged += 1
+    ctx.note('server')
+    return {'cfg': cfg}
+
+
+_SRV_N = [0]
+
+
+def server_partitions(cfg):
+    from sc3.synth import server as srv, bus as bus_, buffer as buf_
+    from sc3.base import netaddr as nad
+    _SRV_N[0] += 1
+    opt = srv.ServerOptions()
+    opt.audio_buses, opt.control_buses, opt.buffers = cfg['audio'], cfg['control'], cfg['buffers']
+    opt.input_channels, opt.output_channels = cfg['io']
+    opt.max_logins = cfg['logins']
+    opt.reserved_audio_buses, opt.reserved_control_buses, opt.reserved_buffers = cfg['res_a'], cfg['res_c'], cfg['res_b']
+    s = srv.Server(f'vf{_SRV_N[0]}', nad.NetAddr('127.0.0.1', 30000 + _SRV_N[0] % 20000), opt)
+    try:
+        fp = opt.first_private_bus()
+        got = {'audio': {}, 'control': {}, 'buffer': {}}
+        for cid in range(cfg['logins']):
+            s._set_client_id(cid)
+            if s.client_id != cid:
+                return f'client id {cid} refused with max_logins {cfg["logins"]}'
+            for kind, mk in (('audio', lambda: bus_.AudioBus(1, s).index), ('control', lambda: bus_.ControlBus(1, s).index),
+                             ('buffer', lambda: s._next_buffer_number(1))):
+                idx = []
+                for _ in range(64):
+                    try:
+                        v = mk()
+                    except Exception:
+                        break
+                    if v is None:
+                        break
+                    idx.append(v)
+                got[kind][cid] = idx
+        rng = {'audio': (fp, cfg['audio']), 'control': (0, cfg['control']), 'buffer': (0, cfg['buffers'])}
+        share = {'audio': (cfg['audio'] - fp) // cfg['logins'] - cfg['res_a'],
+                 'control': cfg['control'] // cfg['logins'] - cfg['res_c'],
+                 'buffer': cfg['buffers'] // cfg['logins'] - cfg['res_b']}
+        for kind in got:
+            lo, hi = rng[kind]
+            seen = {}
+            for cid, idx in got[kind].items():
+                if len(set(idx)) != len(idx):
+                    return f'{kind} index handed out twice to client {cid}: {idx} (options {cfg})'
+                for v in idx:
+                    if not (lo <= v < hi):
+                        return f'{kind} index {v} handed to client {cid} lies outside the server\'s {kind} range ' \
+                               f'[{lo}, {hi}) (options {cfg})'
+                    if v in seen:
+                        return f'{kind} index {v} handed to clients {seen[v]} and {cid} (options {cfg})'
+                    seen[v] = cid
+                if len(idx) < max(0, share[kind]):
+                    return f'client {cid} got only {len(idx)} of its {share[kind]} {kind} indices (options {cfg})'
+        return None
+    finally:
+        try:
+            srv.Server.all.discard(s)
+            srv.Server.named.pop(s.name, None)
+        except Exception:
+            pass
+
+
+def job_server(job):
+    st = explore(server_scenario, max_paths=20000, timeout_ms=5000, stop_on_violation=True)
+    return st.as_dict()
+
+
 def replay(rec):
+    if rec.get('kind') == 'server':
+        return server_partitions(rec['cfg'])
     eng = _eng()
     if rec['kind'] == 'nodeid':
         al = eng.NodeIDAllocator(rec['user'], rec['init_temp'])
@@ -311,7 +398,10 @@ def _concrete_alloc(al, live, n, lo, hi):
 def main(tier, seed):
     eng = _eng()
     chk = Check(PID, 'model_checking', tier, seed)
-    chk.functions = src_hash([eng.ContiguousBlockAllocator, eng.ContiguousBlock, eng.NodeIDAllocator])
+    from sc3.synth import server as _srv
+    chk.functions = src_hash([eng.ContiguousBlockAllocator, eng.ContiguousBlock, eng.NodeIDAllocator,
+                              _srv.Server._new_bus_allocators, _srv.Server._new_buffer_allocators,
+                              _srv.Server._next_buffer_number, _srv.ServerOptions.first_private_bus])
     if tier == 'quick':
         sizes, N, cids, poss = (1, 2, 3, 4, 5), 5, (0, 1, 2), (0, 1)
     else:
@@ -319,9 +409,11 @@ def main(tier, seed):
     chk.bounds = {'partition_sizes': list(sizes), 'alloc_n': f'1..min({N}, partition)', 'client_ids': list(cids),
                   'reserved_pos': list(poss), 'history_length': 'unbounded (reachable-state fixpoint per configuration)',
                   'node_ids': 'temp, init_temp symbolic over the whole 26-bit window; user 0..31',
-                  'outside': 'reserve(); PowerOfTwo/LRU/Stack/Ring allocators (not installed by Server); partitions '
-                             'computed by Server._new_*_allocators for symbolic option values; partitions larger than '
-                             'the listed sizes'}
+                  'server_partitions': 'Server objects with audio_buses 8/12/13, in/out channels (2,2)/(0,2)/(1,1), '
+                                       'max_logins 1..3 (every client id), control_buses 6/8, buffers 6/8, reserved 0/1 '
+                                       'each: every single-index allocation until exhaustion',
+                  'outside': 'reserve(); PowerOfTwo/LRU/Stack/Ring allocators (not installed by Server); option values '
+                             'other than the listed ones; partitions larger than the listed sizes'}
     chk.assumptions = ['block allocator: finite domain, reachable states enumerated to a fixpoint through the decision '
                        'tree (no sampling); bi.choice and the free-list dict iteration order are adversarial choices',
                        'double free = free of an address that was freed earlier in the same history and is not '
@@ -335,6 +427,9 @@ def main(tier, seed):
         ntr += r.get('transitions', 0)
     chk.states, chk.transitions = nst, ntr
     chk.require_notes('block_allocator_reach', ['alloc', 'free', 'double-free'])
+    for r in run_jobs('vf.props.c16', 'job_server', [dict()], 'nrt'):
+        chk.add('server_partitions', r)
+    chk.require_notes('server_partitions', ['server'])
     for r in run_jobs('vf.props.c16', 'job_nodeid', [dict(user=u) for u in range(32)], 'none'):
         chk.add('node_id_step', r)
     lem = lemma_distinct()
